@@ -199,8 +199,9 @@ def _check_live(live, what, skip=None):
 
 def _a_new(ctx, op, step, live, dirty, acc):
     _, name, shape, wrap = op
-    desc = '#%d %s%s(%s,%s)' % (step, 'Value/Array' if wrap else 'Raw',
-                                '', name, shape)
+    desc = '#%d %s%s(%s,%s)' % (step, '' if wrap else 'Raw',
+                                'Array' if is_array(shape) else 'Value',
+                                name, shape)
     try:
         obj = make(ctx, name, shape, wrap)
     except vos.HarnessError:
@@ -365,7 +366,7 @@ def _a_item(item):
     if kind == 'pairs':
         x = tuple(item[1])
         hs = []
-        for y in full_alphabet():
+        for y in pair_seconds(x, item[2]):
             hs.append((x, y))
             hs.append((x, ('drop', 0), y))
         part = 'a-pairs'
@@ -402,8 +403,19 @@ def pair_firsts():
             for ti, t in enumerate(TYPES) for si, s in enumerate(SHAPES)]
 
 
+def pair_seconds(x, full):
+    """Second objects: every type x shape; both wrappers (thorough), or the
+    wrapper alternating with type, shape and first object (quick), so every
+    (type, shape, wrapper) still occurs as second object."""
+    if full:
+        return full_alphabet()
+    xi = TYPES.index(x[1]) + SHAPES.index(x[2])
+    return [('new', t, s, (ti + si + xi) % 2)
+            for ti, t in enumerate(TYPES) for si, s in enumerate(SHAPES)]
+
+
 def a_items(tier):
-    items = [('pairs', x) for x in pair_firsts()]
+    items = [('pairs', x, tier == 'thorough') for x in pair_firsts()]
     if tier == 'thorough':
         deep = [(4, 2, SHAPES), (5, 1, SHAPES), (6, 1, SHAPES),
                 (7, 1, ('SI', 'A0', 'A3', 'A600'))]
@@ -682,7 +694,7 @@ def _item(item):
 def b_configs(tier):
     """(config, preemption bound).  Quick: bound 2, except bound 1 for the
     3-process configurations of the array / structure wrappers and of the
-    'prop' / 'ctx' spellings; thorough: bound 3, except bound 2 for 3
+    'prop' / 'ctx' spellings and the reader / mixed scenarios; thorough: bound 3, except bound 2 for 3
     processes x 2 rounds and for the 3-process 'prop' / 'ctx' spellings on
     the array / structure wrappers."""
     thorough = tier == 'thorough'
@@ -703,6 +715,7 @@ def b_configs(tier):
         b3 = 3 if thorough else (2 if kind == 'value' else 1)
         out.append((dict(kind=kind, scenario='bare', procs=2, rounds=1), b2))
         out.append((dict(kind=kind, scenario='bare', procs=3, rounds=1), b3))
+        b3 = 3 if thorough else 1
         out.append((dict(kind=kind, scenario='reader', procs=2), b2))
         out.append((dict(kind=kind, scenario='reader', procs=3), b3))
         out.append((dict(kind=kind, scenario='mixed', procs=2, rounds=1), b2))
@@ -1107,8 +1120,10 @@ def _main(tier, seed, only, real):
         rep.cov['a_bounds'] = dict(
             pairs='[new X, new Y] and [new X, drop 0 (dirty), new Y]: X in '
                   '%d types x %d shapes (wrapper alternating), Y in %d types '
-                  'x %d shapes x {raw, lock-wrapped}'
-                  % (len(TYPES), len(SHAPES), len(TYPES), len(SHAPES)),
+                  'x %d shapes x %s'
+                  % (len(TYPES), len(SHAPES), len(TYPES), len(SHAPES),
+                     '{raw, lock-wrapped}' if tier == 'thorough' else
+                     'wrapper alternating with type, shape and X'),
             deep=[dict(depth=d, types_per_shape_and_position=tw,
                        shapes=list(sh)) for d, tw, sh in deep])
         rep.cov['a_work_items_with_violation'] = nviol
